@@ -7,7 +7,7 @@ use crate::client::ClientSpec;
 use crate::conn::{ConnCfg, ConnOutcome, ConnScenario, Wall, run_conn};
 use crate::rng::Rng;
 use crate::runner::{Check, RunReport, Tier};
-use crate::services::{AuthRes, DiscRes, Script, Services, StratRes};
+use crate::services::{AuthRes, DiscRes, PropSpec, Script, Services, StratRes};
 use serde::{Deserialize, Serialize};
 use serde_json::{Value, json};
 use std::net::SocketAddr;
@@ -27,6 +27,10 @@ pub struct C10Sc {
     /// configuration, or another instance sharing the secret)
     #[serde(default)]
     pub second_expiry: Option<u64>,
+    /// the second client takes this long before it answers the cookie request (the wall clock is then
+    /// somewhere inside a second, not at its start)
+    #[serde(default)]
+    pub second_think_ns: u64,
 }
 
 fn generate(rng: &mut Rng) -> C10Sc {
@@ -95,7 +99,23 @@ fn generate(rng: &mut Rng) -> C10Sc {
         second_seed: rng.next_u64(),
         present_session: rng.chance(3, 4),
         second_expiry: if rng.chance(1, 5) { Some(*rng.pick(&[0u64, 1, 60, 3600, u64::MAX])) } else { None },
+        second_think_ns: *rng.pick(&[0u64, 0, ms(1), ms(250), ms(999), ms(1500)]),
     };
+    // one in ten: the profile is padded so that the issued cookie is just below / at / just above 5000 and 5120 bytes
+    // (what a vanilla client can store and present again)
+    if first.cfg.secret.is_some() && rng.chance(1, 10) {
+        let mut probe = first.clone();
+        probe.services.auth = Script::always(Some(0), AuthRes::Profile { name: "Sized".into(), uuid: format!("{:032x}", gen_uuid(rng)), props: vec![PropSpec { name: "textures".into(), value: String::new(), signature: None }] });
+        probe.services.discovery.default.lat_ns = Some(0);
+        let o = run_conn(&probe);
+        if let Some(ck) = auth_store_cookie(&o) {
+            let want = *rng.pick(&[4990usize, 5000, 5001, 5060, 5119, 5120]);
+            if want > ck.len() {
+                let AuthRes::Profile { name, uuid, .. } = probe.services.auth.default.res.clone() else { unreachable!() };
+                first.services.auth = Script::always(Some(0), AuthRes::Profile { name, uuid, props: vec![PropSpec { name: "textures".into(), value: "A".repeat(want - ck.len()), signature: None }] });
+            }
+        }
+    }
     zero_time_noise(rng, &mut first);
     sc.first = first;
     sc
@@ -116,6 +136,9 @@ fn second_of(sc: &C10Sc, o1: &ConnOutcome) -> ConnScenario {
     s.cfg.client_addr = SocketAddr::new(a.ip(), a.port() ^ sc.second_port_xor).to_string();
     s.client.intent = 3;
     s.client.rng ^= 0x1234;
+    if sc.second_think_ns > 0 {
+        s.client.login_think_ns = vec![0, sc.second_think_ns];
+    }
     if let Some(e) = sc.second_expiry {
         s.cfg.expiry = Some(e);
     }
